@@ -188,7 +188,7 @@ func c19(w *World) {
 	// ---- workload ----
 	var sends []*sendRec
 	nTasks := 1 + w.W.Draw(4)
-	perTask := 1 + w.W.Draw(5)
+	perTask := 1 + w.W.Draw(w.Deep(5))
 	done := 0
 	for t := 0; t < nTasks; t++ {
 		t := t
@@ -230,7 +230,7 @@ func c19(w *World) {
 		})
 	}
 	// inbound traffic meanwhile
-	nIn := w.W.Draw(6)
+	nIn := w.W.Draw(w.Deep(6))
 	var inbound [][]byte
 	for i := 0; i < nIn; i++ {
 		var raw []byte
